@@ -3,7 +3,7 @@
 From Coq Require Import Permutation String.
 From Statham.Model Require Import Str Orderer Tables.
 From Statham.Generated Require Import Gen_orderer_paths.
-From Statham.Proofs Require Import StrFacts OrdererLoop OrdererSound Agree_orderer.
+From Statham.Proofs Require Import StrFacts OrdererLoop OrdererSound OrdererWalk Agree_orderer.
 
 (* The emission loop of orderer(): on every dependency map with unique keys that is
    closed (dependencies are keys and are transitive, which get_children's transitive
@@ -68,8 +68,32 @@ Theorem C11_orderer_sound : forall paths G roots l,
 Proof. exact orderer_sound. Qed.
 Print Assumptions C11_orderer_sound.
 
+(* Termination of the enumeration: get_children's walk with its shared `seen` set never
+   exhausts the model's fuel S (length G) on an identity graph whose child ids are node ids
+   (checked per graph by wf_graphb in the correspondence run), whatever the sharing and the
+   cycles: each nested call adds a node to `seen`, and `seen` never holds a node twice. *)
+Theorem C11_walk_terminates : forall paths G,
+  wf_graph paths G -> forall n, n < length G -> get_children paths G n <> None.
+Proof. exact get_children_total. Qed.
+Print Assumptions C11_walk_terminates.
+
+(* ... hence orderer() as a whole never answers with the totalised out-of-fuel value: every
+   verdict of the model (an order, the schema-parse error, the assertion) is the code's. *)
+Theorem C11_orderer_total : forall paths G roots,
+  wf_graphb paths G = true -> boundedb G roots = true -> orderer paths G roots <> OOutOfFuel.
+Proof. exact orderer_total_b. Qed.
+Print Assumptions C11_orderer_total.
+
 Local Open Scope string_scope.
 Local Open Scope list_scope.
+(* a two-node cycle through `items` with a shared leaf: well-formed, and the walk ends *)
+Example C11_walk_nonvacuous :
+  let G := [ {| n_class := Some (s_ "A"); n_kids := [(s_ "items", [1; 2])] |};
+             {| n_class := None; n_kids := [(s_ "items", [0; 2])] |};
+             {| n_class := Some (s_ "B"); n_kids := [] |} ] in
+  wf_graphb Gen_orderer_paths.paths G = true /\
+  get_children Gen_orderer_paths.paths G 0 = Some [1; 0; 0; 2; 2; 2].
+Proof. vm_compute. split; reflexivity. Qed.
 Example C11_sound_nonvacuous :
   order_names [(s_ "B", [s_ "A"]); (s_ "A", [])] = OOk [s_ "A"; s_ "B"] /\
   order_names [(s_ "B", [s_ "Z"]); (s_ "A", [])] = OAssertionError.
